@@ -98,9 +98,10 @@ def _globs():
 GLOBS = None
 
 
-def relevant_under(di: int, g0: int, g1: int, nglobs: int) -> bool:
+def relevant_under(di: int, g0: int, g1: int, nglobs: int, during_build: bool = False) -> bool:
     """When a directory disappears, every recorded glob match beneath it (and nothing else) is
-    reported, whatever the pattern's own literal prefix is."""
+    reported, whatever the pattern's own literal prefix is, and also when the removal is observed
+    while a build is running (a pattern may not match a build product, so its matches always count)."""
     import stepup.core.workflow as wfm
 
     global GLOBS
@@ -116,7 +117,7 @@ def relevant_under(di: int, g0: int, g1: int, nglobs: int) -> bool:
     fake = type("W", (), {})()
     fake.db = DB()
     fake.nglob_registrations = lambda: [(k, ng, None) for k, ng in enumerate(regs)]
-    got = sorted(str(p) for p in wfm.Workflow.relevant_paths_under(fake, directory))
+    got = sorted(str(p) for p in wfm.Workflow.relevant_paths_under(fake, directory, during_build=during_build))
     d = directory if directory.endswith("/") else directory + "/"
     want = sorted({str(f) for ng in regs for f in ng.files() if str(f).startswith(d)})
     return got == want
